@@ -9,6 +9,11 @@ package graphql
 //@   ensures result != nil
 //@   ensures result is ClientError
 
+//@ func NewSafeError
+//@   assigns nothing
+//@   ensures result != nil
+//@   ensures result is SafeError
+
 //@ func findDirectiveWithName
 //@   requires forall k int :: 0 <= k && k < len(directives) ==> directives[k] != nil
 //@   assigns nothing
@@ -32,3 +37,105 @@ package graphql
 //@   requires forall k int :: 0 <= k && k < len(directives) ==> directives[k] != nil && directives[k].Args is map[string]interface{}
 //@   assigns nothing
 //@   ensures err == nil ==> forall s int, i int :: (noneNamed(directives, "skip") || firstNamed(directives, "skip", s)) && (noneNamed(directives, "include") || firstNamed(directives, "include", i)) ==> (result <==> ((noneNamed(directives, "skip") || (ifArg(directives[s]) is bool && !ifArg(directives[s]).(bool))) && (noneNamed(directives, "include") || (ifArg(directives[i]) is bool && ifArg(directives[i]).(bool)))))
+
+// ---- C16: error plumbing
+
+// Only errors explicitly marked client-safe are forwarded; everything else becomes the fixed message.
+//@ func SanitizeError
+//@   ensures !(err is SanitizedError) ==> result == "Internal server error"
+
+// nestPathError / nestPathErrorMulti: client-safe errors are returned unchanged; any other error becomes
+// (or stays) a *pathError whose cause is the original error and whose path is extended by exactly the
+// given segment(s) (the path is kept innermost-first).
+//@ pred isPathErr(e error) = e is *pathError && e.(*pathError) != nil
+//@ func nestPathError
+//@   requires err is *pathError ==> err.(*pathError) != nil
+//@   assigns []string
+//@   ensures err is SanitizedError ==> result == err
+//@   ensures !(err is SanitizedError) && err is *pathError ==> isPathErr(result) && fresh(result.(*pathError)) && result.(*pathError).inner == old(err.(*pathError).inner)
+//@   ensures !(err is SanitizedError) && err is *pathError ==> len(result.(*pathError).path) == len(old(err.(*pathError).path))+1 && result.(*pathError).path[len(old(err.(*pathError).path))] == key
+//@   ensures !(err is SanitizedError) && err is *pathError ==> (forall k int :: 0 <= k && k < len(old(err.(*pathError).path)) ==> result.(*pathError).path[k] == old(err.(*pathError).path[k]))
+//@   ensures !(err is SanitizedError) && !(err is *pathError) ==> isPathErr(result) && fresh(result.(*pathError)) && result.(*pathError).inner == err && len(result.(*pathError).path) == 1 && result.(*pathError).path[0] == key
+
+//@ func nestPathErrorMulti
+//@   requires err is *pathError ==> err.(*pathError) != nil
+//@   assigns []string
+//@   ensures err is SanitizedError ==> result == err
+//@   ensures !(err is SanitizedError) && err is *pathError ==> isPathErr(result) && fresh(result.(*pathError)) && result.(*pathError).inner == old(err.(*pathError).inner) && len(result.(*pathError).path) == len(old(err.(*pathError).path))+len(path) && (forall k int :: 0 <= k && k < len(old(err.(*pathError).path)) ==> result.(*pathError).path[k] == old(err.(*pathError).path[k])) && (forall k int :: 0 <= k && k < len(path) ==> result.(*pathError).path[len(old(err.(*pathError).path))+k] == old(path[k]))
+//@   ensures !(err is SanitizedError) && !(err is *pathError) ==> isPathErr(result) && fresh(result.(*pathError)) && result.(*pathError).inner == err && result.(*pathError).path == path
+
+//@ func ErrorCause
+//@   requires err is *pathError ==> err.(*pathError) != nil
+//@   assigns nothing
+//@   ensures err is *pathError ==> result == err.(*pathError).inner
+//@   ensures !(err is *pathError) ==> result == err
+
+// Execute never returns data together with an error.
+//@ func Executor.Execute
+//@   requires e != nil && query != nil
+//@   ensures err != nil ==> result == nil
+
+// ---- C17: connection lifecycle. conn.subscriptions holds exactly the live rerunners of the connection.
+//@ guarded_by conn.mu: subscriptions
+
+// The operations below call into the parser, the executor, user-supplied loggers and package reactive.
+// None of them can reach the unexported conn or its subscription table (the rerunner goroutines that
+// call closeSubscription block on c.mu, which these operations hold): `keeps` records that assumption.
+//@ pred othersKept(m map[string]*reactive.Rerunner, id string) = forall k string :: k != id ==> ((k in m) <==> old(k in m)) && m[k] == old(m[k])
+//@ pred allKept(m map[string]*reactive.Rerunner) = forall k string :: ((k in m) <==> old(k in m)) && m[k] == old(m[k])
+
+//@ func conn.handleSubscribe
+//@   requires c != nil && in != nil && c.subscriptions != nil
+//@   keeps conn, inEnvelope, map[string]*reactive.Rerunner
+//@   ghost nSubscribe int
+//@   ghost nNew int
+//@   entry ghost nSubscribe = 0
+//@   entry ghost nNew = 0
+//@   call Subscribe ghost nSubscribe = nSubscribe + 1
+//@   call NewRerunner ghost nNew = nNew + 1
+//@   ensures old(in.ID in c.subscriptions) ==> err != nil
+//@   ensures old(len(c.subscriptions)+1 > c.maxSubscriptions) ==> err != nil
+//@   ensures err != nil ==> allKept(c.subscriptions) && nSubscribe == 0 && nNew == 0
+//@   ensures err == nil ==> nSubscribe == 1 && nNew == 1
+//@   ensures err == nil ==> (old(in.ID) in c.subscriptions)
+//@   ensures err == nil ==> len(c.subscriptions) == old(len(c.subscriptions))+1
+//@   ensures err == nil ==> othersKept(c.subscriptions, old(in.ID))
+
+//@ func conn.handleMutate
+//@   requires c != nil && in != nil && c.subscriptions != nil
+//@   keeps conn, inEnvelope, map[string]*reactive.Rerunner
+//@   ghost nNew int
+//@   entry ghost nNew = 0
+//@   call NewRerunner ghost nNew = nNew + 1
+//@   ensures old(in.ID in c.subscriptions) ==> err != nil
+//@   ensures err != nil ==> allKept(c.subscriptions) && nNew == 0
+//@   ensures err == nil ==> nNew == 1 && (old(in.ID) in c.subscriptions) && othersKept(c.subscriptions, old(in.ID))
+
+//@ func conn.closeSubscription
+//@   requires c != nil
+//@   keeps conn, map[string]*reactive.Rerunner
+//@   ghost nStop int
+//@   ghost nUnsub int
+//@   entry ghost nStop = 0
+//@   entry ghost nUnsub = 0
+//@   call Rerunner.Stop assert arg0 == c.subscriptions[id]
+//@   call Rerunner.Stop ghost nStop = nStop + 1
+//@   call Unsubscribe assert arg2 == id
+//@   call Unsubscribe ghost nUnsub = nUnsub + 1
+//@   ensures old(id in c.subscriptions) ==> !(id in c.subscriptions) && nStop == 1 && nUnsub == 1 && othersKept(c.subscriptions, id)
+//@   ensures !old(id in c.subscriptions) ==> allKept(c.subscriptions) && nStop == 0 && nUnsub == 0
+
+// closeSubscriptions: every entry is stopped, removed and reported to the subscription logger exactly once.
+//@ func conn.closeSubscriptions
+//@   requires c != nil
+//@   keeps conn, map[string]*reactive.Rerunner
+//@   ghost nStop int
+//@   ghost nUnsub int
+//@   entry ghost nStop = 0
+//@   entry ghost nUnsub = 0
+//@   call Rerunner.Stop ghost nStop = nStop + 1
+//@   call Unsubscribe ghost nUnsub = nUnsub + 1
+//@   ensures len(c.subscriptions) == 0
+//@   ensures nStop == old(len(c.subscriptions)) && nUnsub == nStop
+//@   loop 1 invariant nStop + len(c.subscriptions) == old(len(c.subscriptions)) && nUnsub == nStop
+//@   loop 1 invariant forall k string :: visited[k] ==> !(k in c.subscriptions)
